@@ -16,17 +16,10 @@ theorem rawTok_initial_not_regex {st : LexState} {t : Token} {st1 : LexState} (h
   obtain ⟨r, ⟨pre, post, _, hr, _⟩, ht⟩ := h.rule
   intro hty
   have hmem : r ∈ rulesOf .initial := by rw [hr]; simp
-  rw [ht] at hty
-  unfold ruleType at hty
-  split at hty
-  · split at hty
-    · rename_i kw hkw
-      have := lookup_mem _ _ _ hkw
-      rw [hty] at this
-      exact regex_not_initial.2 (List.mem_cons_of_mem _ this)
-    · simp at hty
-  · rw [hty] at hmem
-    exact regex_not_initial.1 hmem
+  have hreq : r = "REGEX" :=
+    ruleFn_eq _ r _ "REGEX" (by decide) (fun hk => regex_not_initial.2 (List.mem_cons_of_mem _ hk)) (ht ▸ hty)
+  rw [hreq] at hmem
+  exact regex_not_initial.1 hmem
 
 theorem rawTok_regex_is_regex {st : LexState} {t : Token} {st1 : LexState} (h : RawTok .regex st t st1) :
     t.type = "REGEX" := by
@@ -36,7 +29,7 @@ theorem rawTok_regex_is_regex {st : LexState} {t : Token} {st1 : LexState} (h : 
   simp at hmem
   subst hmem
   rw [ht]
-  simp [ruleType]
+  simp [ruleFn, ruleType]
 
 /-- `_get_update_token` lexes in state INITIAL: it never returns a REGEX token -/
 theorem getUpdateToken_not_regex (st : LexState) (t : Token) (st' : LexState)
